@@ -205,6 +205,19 @@ def decorate(rng, prods, style):
 
 
 # ------------------------------------------------------------------ impl side
+def _patient(f, seconds):
+    """run f() under a wall-clock limit; a timeout is retried once with 15x the limit so that
+    starvation on a loaded machine is not mistaken for non-termination"""
+    from lib import impl
+    try:
+        with impl.time_limit(seconds):
+            return f()
+    except impl.Timeout:
+        pass
+    with impl.time_limit(seconds * 15):
+        return f()
+
+
 def _dump_states(table, gi, g, tables_kind):
     """per state: the inputs of the reduce phase and its observable results"""
     from parglare.grammar import STOP, NonTerminal
@@ -299,8 +312,7 @@ def _worker_optable(case):
     from lib import impl
     out = {"case": case, "gerr": None, "variants": []}
     try:
-        with impl.time_limit(20):
-            g = Grammar.from_string(case["text"])
+        g = _patient(lambda: Grammar.from_string(case["text"]), 20)
     except BaseException as e:  # noqa
         out["gerr"] = impl.exc_kind(e) + ": " + str(e)[:200]
         return out
@@ -322,12 +334,14 @@ def _worker_optable(case):
     opidx = {s: i for i, (s, _, _) in enumerate(case["ops"])}
     for tk in (LALR, SLR):
         v = {"tables": tk, "results": []}
+        def build3():
+            with impl.quiet():
+                return (Parser(g, build_tree=True, prefer_shifts=False, prefer_shifts_over_empty=False,
+                               tables=tk),
+                        Parser(g, prefer_shifts=False, prefer_shifts_over_empty=False, tables=tk),
+                        GLRParser(g, prefer_shifts=False, prefer_shifts_over_empty=False, tables=tk))
         try:
-            with impl.time_limit(30), impl.quiet():
-                p = Parser(g, build_tree=True, prefer_shifts=False, prefer_shifts_over_empty=False,
-                           tables=tk)
-                p2 = Parser(g, prefer_shifts=False, prefer_shifts_over_empty=False, tables=tk)
-                gl = GLRParser(g, prefer_shifts=False, prefer_shifts_over_empty=False, tables=tk)
+            p, p2, gl = _patient(build3, 30)
             v["outcome"] = "ok"
         except BaseException as e:  # noqa
             v["outcome"] = impl.exc_kind(e)
@@ -339,26 +353,23 @@ def _worker_optable(case):
         for (toks, kind, w) in case["inputs"]:
             r = {}
             try:
-                with impl.time_limit(10):
-                    r["lr"] = _conv_node(p.parse(w), alts)
+                r["lr"] = _patient(lambda: _conv_node(p.parse(w), alts), 10)
             except parglare.SyntaxError:
                 r["lr"] = "SyntaxError"
             except BaseException as e:  # noqa
                 r["lr"] = "exc:" + impl.exc_kind(e)
             try:
-                with impl.time_limit(10):
-                    r["lr_list"] = _conv_list(p2.parse(w), opidx)
+                r["lr_list"] = _patient(lambda: _conv_list(p2.parse(w), opidx), 10)
             except parglare.SyntaxError:
                 r["lr_list"] = "SyntaxError"
             except BaseException as e:  # noqa
                 r["lr_list"] = "exc:" + impl.exc_kind(e)
+            def glr_all():
+                f = gl.parse(w)
+                return (len(f), f.ambiguities, _conv_tree(f[0], alts),
+                        _conv_list(gl.call_actions(f[0]), opidx))
             try:
-                with impl.time_limit(10):
-                    f = gl.parse(w)
-                    r["glr_len"] = len(f)
-                    r["glr_amb"] = f.ambiguities
-                    r["glr"] = _conv_tree(f[0], alts)
-                    r["glr_list"] = _conv_list(gl.call_actions(f[0]), opidx)
+                r["glr_len"], r["glr_amb"], r["glr"], r["glr_list"] = _patient(glr_all, 10)
             except parglare.SyntaxError:
                 r["glr"] = "SyntaxError"
             except BaseException as e:  # noqa
@@ -385,7 +396,8 @@ def _worker_noop(job):
         return g, p
 
     try:
-        with impl.time_limit(20):
+        # no retry here: LALR construction is known to diverge on some random grammars (C05)
+        with impl.time_limit(10):
             g0, p0 = build(plain)
     except BaseException as e:  # noqa
         out["skip"] = impl.exc_kind(e)
@@ -402,16 +414,16 @@ def _worker_noop(job):
             gl = GLRParser(g, prefer_shifts=False, prefer_shifts_over_empty=False)
         for w in inputs:
             try:
-                with impl.time_limit(10):
-                    a = impl.node_sx(p.parse(w), gi)
+                a = _patient(lambda: impl.node_sx(p.parse(w), gi), 10)
             except parglare.SyntaxError as e:
                 a = ["SyntaxError", e.location.start_position]
             except BaseException as e:  # noqa
                 a = "exc:" + impl.exc_kind(e)
+            def glr2():
+                f = gl.parse(w)
+                return [len(f), impl.tree_sx(f[0], gi)]
             try:
-                with impl.time_limit(10):
-                    f = gl.parse(w)
-                    b = [len(f), impl.tree_sx(f[0], gi)]
+                b = _patient(glr2, 10)
             except parglare.SyntaxError as e:
                 b = ["SyntaxError", e.location.start_position]
             except BaseException as e:  # noqa
@@ -425,8 +437,7 @@ def _worker_noop(job):
     for text in decorated:
         v = {"text": text}
         try:
-            with impl.time_limit(20):
-                g1, p1 = build(text)
+            g1, p1 = _patient(lambda: build(text), 20)
             v["outcome"] = "ok"
         except BaseException as e:  # noqa
             v["outcome"] = impl.exc_kind(e) + ": " + str(e)[:200]
